@@ -1,0 +1,29 @@
+//go:build verif
+
+// Contracts for the verification engine in /verif (comment-only file; it is
+// compiled only with the build tag "verif" and contains no code).
+
+package gzip
+
+// C12: the packed bytes live in a buffer taken from the byte-buffer pool. They
+// are handed to the caller together with that buffer: on success
+// the buffer is not handed back (a buffer that is back
+// in the pool is overwritten by the next filter of the pipe that takes one,
+// while this filter's output is still being read). On failure it is.
+// (compress/gzip itself is library code: that OnUnpack inverts OnPack is an
+// assumption, exercised by the bounded stand-in of C12.)
+//@ func (*Gzip).OnPack
+//@   property C12
+//@   flags libframe
+//@   requires g != nil
+//@   ensures[packed-bytes-keep-their-buffer] result.1 == nil ==> ghost.bufferReleases == old(ghost.bufferReleases)
+//@   ensures[buffer-released-on-failure] result.1 != nil ==> ghost.bufferReleases == old(ghost.bufferReleases) + 1 && len(result.0) == 0
+
+// C12: an altered payload is rejected with an error (not a panic): the pooled
+// reader is closed only after a Reset that succeeded - a fresh reader whose first
+// Reset fails on a corrupt header has no decompressor to close.
+//@ func (*Gzip).OnUnpack
+//@   property C12
+//@   flags libframe
+//@   requires g != nil
+//@   ensures[empty-passes-through] len(src) == 0 ==> result.1 == nil && len(result.0) == 0
